@@ -3,7 +3,7 @@ of canmatrix's own writer, with the lexical freedom of the format as a parameter
 renderings, order of statements within a section, optional parts left out."""
 from lib.c15 import net as N
 
-NET_OPTS = {"extmux": True}
+NET_OPTS = {"extmux": True, "same_number_both_formats": True}
 
 
 class Lex(object):
